@@ -15,10 +15,11 @@ func init() { register(extractC13, "C13") }
 
 // calcOp is one entry of the `operators` map literal of internal/calc/calc.go.
 type calcOp struct {
-	ch    byte
-	prec  int
-	right bool
-	apply string
+	ch      byte
+	prec    int
+	right   bool
+	apply   string
+	divisor bool
 }
 
 // calcApplyTag names the big.Int method an operator's apply function calls:
@@ -151,11 +152,20 @@ func extractC13(c *Ctx) {
 						}
 					case "apply":
 						op.apply = calcApplyTag(fset, fkv.Value)
+					case "divisor":
+						switch Src(fset, fkv.Value) {
+						case "true":
+							op.divisor = true
+						case "false":
+							op.divisor = false
+						default:
+							problems = append(problems, "divisor is not a boolean literal: "+Src(fset, fkv.Value))
+						}
 					default:
 						problems = append(problems, "unknown field "+name)
 					}
 				}
-				// an omitted field takes Go's zero value: precedence 0, leftassociative, nil apply
+				// an omitted field takes Go's zero value: precedence 0, leftassociative, nil apply, divisor false
 				if !seen["precedence"] {
 					op.prec = 0
 				}
@@ -173,15 +183,16 @@ func extractC13(c *Ctx) {
 	var b strings.Builder
 	b.WriteString("/-! GENERATED by /verif/harness/cmd/extract (c13.go) from /repo/internal/calc/calc.go — do not edit.\n")
 	b.WriteString("    One entry per key of the `operators` map literal, in source order:\n")
-	b.WriteString("    (operator character, precedence, associativity = rightassociative, big.Int method applied). -/\n")
+	b.WriteString("    (operator character, precedence, associativity = rightassociative, big.Int method applied,\n")
+	b.WriteString("     divisor = the second operand must be non-zero). -/\n")
 	b.WriteString("namespace AC.Gen\n\n")
-	b.WriteString("def calcOps : List (Char × Nat × Bool × String) := [\n")
+	b.WriteString("def calcOps : List (Char × Nat × Bool × String × Bool) := [\n")
 	for i, o := range ops {
 		sep := ","
 		if i == len(ops)-1 {
 			sep = ""
 		}
-		fmt.Fprintf(&b, "  (Char.ofNat %d, %d, %v, %s)%s  -- '%c'\n", o.ch, o.prec, o.right, strconv.Quote(o.apply), sep, o.ch)
+		fmt.Fprintf(&b, "  (Char.ofNat %d, %d, %v, %s, %v)%s  -- '%c'\n", o.ch, o.prec, o.right, strconv.Quote(o.apply), o.divisor, sep, o.ch)
 	}
 	b.WriteString("]\n\nend AC.Gen\n")
 	c.WriteGen("CalcOps.lean", b.String())
@@ -193,6 +204,34 @@ func extractC13(c *Ctx) {
 	}
 	sort.Strings(keys)
 	c.Check("calc.operator-keys", strings.Join(keys, "") == "*+-/^", "operator characters are now "+strings.Join(keys, ""))
+
+	// --- the operator struct: exactly the fields the extractor understands
+	for _, d := range f.Decls {
+		gd, ok := d.(*ast.GenDecl)
+		if !ok || gd.Tok != token.TYPE {
+			continue
+		}
+		for _, sp := range gd.Specs {
+			ts := sp.(*ast.TypeSpec)
+			if ts.Name.Name != "operator" {
+				continue
+			}
+			st, ok := ts.Type.(*ast.StructType)
+			if !ok {
+				c.Check("calc.operator-struct", false, "operator is not a struct")
+				continue
+			}
+			fields := []string{}
+			for _, fl := range st.Fields.List {
+				for _, n := range fl.Names {
+					fields = append(fields, n.Name+" "+Src(fset, fl.Type))
+				}
+			}
+			got := strings.Join(fields, "; ")
+			want := "precedence int; associativity associativity; apply func(*big.Int, *big.Int, *big.Int) *big.Int; divisor bool"
+			c.Check("calc.operator-struct", got == want, "fields are now: "+got)
+		}
+	}
 
 	// --- source fragments the hand-written model mirrors
 	for _, fn := range []struct{ name, file string }{
@@ -213,6 +252,10 @@ func extractC13(c *Ctx) {
 		if !ok {
 			c.Check("expect/"+fn.file, false, "function "+fn.name+" not found in "+file)
 			continue
+		}
+		// drop the doc comment: only the code is mirrored by the model
+		if i := strings.Index(src, "func "); i > 0 {
+			src = src[i:]
 		}
 		if os.Getenv("VERIF_C13_WRITE_EXPECT") == "1" { // maintenance only: (re)create the expectation from the current source
 			_ = os.WriteFile(filepath.Join(c.Verif, "expect", fn.file), []byte(src+"\n"), 0o644)
